@@ -1,21 +1,6 @@
 /-! REGENERATED from /repo's working tree on every run by harness/kernels.py — do not edit.
-Fenwick index walks, the Luby loop and the Status enum exactly as the source has them now. -/
+The Status enum exactly as the source has it now. -/
 namespace Solvor.Gen
-
-/-- `j = …` in `FenwickTree.__init__` (parent that absorbs `tree[i]`). -/
-def fenBuildParent (i : Nat) : Nat := (i ||| (i + 1))
-/-- index step of `FenwickTree.update` (loop runs while `i < n`). -/
-def fenUp (i : Nat) : Nat := (i ||| (i + 1))
-/-- `E` in the index step `i = E - 1` of `FenwickTree.prefix` (loop runs while `i ≥ 0`). -/
-def fenDownBase (i : Nat) : Nat := (i &&& (i + 1))
-
-/-- Body of `luby`'s `while True` loop, one iteration per unit of fuel (0 when fuel runs out;
-`luby_fuel` in Sat/Theorems shows `2 * i + 2` always suffices). Subtractions are on `Nat`; the
-guards in the source make every one of them exact. -/
-def lubyLoop : Nat → Nat → Nat → Nat
-  | 0, _, _ => 0
-  | fuel + 1, i, k => if i = ((1 <<< k) - 1) then (1 <<< (k - 1)) else if i ≥ (1 <<< (k - 1)) then lubyLoop fuel (i - ((1 <<< (k - 1)) - 1)) 1 else lubyLoop fuel i (k + 1)
-def lubyK0 : Nat := 1
 
 inductive Status where
   | OPTIMAL
